@@ -85,5 +85,16 @@ pub broadcast axiom fn axiom_vec_cmp_is_lex<T: Ord>(a: Vec<T>, b: Vec<T>)
 pub assume_specification<T> [Option::<Option<T>>::flatten] (o: Option<Option<T>>) -> (r: Option<T>)
     ensures r == (match o { Some(x) => x, None => None::<T> });
 
+
+// TRUSTED[bool-then-some]: bool::then_some(t) is Some(t) if the bool is true, None otherwise (std doc).
+pub assume_specification<T> [bool::then_some::<T>] (b: bool, t: T) -> (r: Option<T>)
+    ensures r == (if b { Some(t) } else { None::<T> });
+// TRUSTED[skip-slice]: the items of `s.iter().skip(n)` are the items of the sub-slice after the first n (all of them skipped if there are fewer);
+// rule E22 replaces `X.iter().skip(N)` in a `for` by this function followed by `.iter()`.
+#[verifier::external_body]
+pub fn vx_skip_slice<T>(s: &[T], n: usize) -> (r: &[T])
+    ensures r@ == s@.skip(if n <= s@.len() { n as int } else { s@.len() as int })
+{ &s[n.min(s.len())..] }
+
 }
 }
